@@ -357,11 +357,11 @@ class Contracts:
 
         def k2(self, *a, **kw):
             out = orig_bf(self, *a, **kw)
-            binary_op = a[1] if len(a) > 1 else kw.get("binary_op")
             K.evals["K2"] += 1
             try:
+                # (judged from the class of the combination and the children's own results only: how the
+                # library passes the operator around internally is not the contract's business)
                 r0, r1 = out.children[0].result, out.children[1].result
-                exp = [binary_op(x, y) for x, y in zip(r0, r1)]
                 sym = {"ConditionAnd": "and", "ConditionOr": "or", "ConditionXor": "xor"}.get(
                     type(self).__name__)
                 truth = {"and": lambda x, y: x and y, "or": lambda x, y: x or y,
